@@ -2,6 +2,7 @@
 mod c01;
 mod c03;
 mod c04;
+mod c05;
 mod c12;
 mod c13;
 mod c14;
@@ -81,6 +82,7 @@ fn main() {
         "C01" => c01::main(tier, replay),
         "C03" => c03::main(tier, replay, wa),
         "C04" => c04::main(tier, replay),
+        "C05" => c05::main(tier, replay, wa),
         "C12" => c12::main(tier, replay),
         "C13" => c13::main(tier, replay),
         "C14" => c14::main(tier, replay),
